@@ -471,12 +471,52 @@ fn deflater_contract(rng: &mut Rng, n: usize, st: &mut Stats) {
 
 /// Determinism oracle: the same (input, options) under different pool sizes and timings gives
 /// byte-identical results. Any two runs that differ are the failing history.
+/// Animated cases for the determinism oracle: several frames that recompression shrinks (they are recompressed in
+/// parallel), and in half of the cases one frame - not the last - whose data does not decode: the call has to fail the
+/// same way under every pool, never hand out whatever happened to be finished.
+fn apng_case(rng: &mut Rng, st: &mut Stats) -> Case {
+    use crate::img::*;
+    let (ct, depth) = *rng.choose(&[(2u8, 8u8), (6, 8), (0, 8), (3, 8)]);
+    let (w, h) = (rng.range(24, 64) as u32, rng.range(24, 64) as u32);
+    let (g, info) = crate::gen::gen_grid(rng, ct, depth, w, h);
+    let img = g.pack(false);
+    let nf = rng.range(3, 8) as usize;
+    let default_in = rng.bool();
+    let mut input = crate::front::encode_apng_with(rng, &img, nf, default_in, 1, &[]);
+    let mut class = format!("{} apng{}", info.class, nf);
+    if rng.bool() {
+        if let Ok(chunks) = crate::pngparse::parse_chunks(&input) {
+            let fdats: Vec<usize> = chunks.iter().enumerate().filter(|(_, c)| &c.name == b"fdAT").map(|(i, _)| i).collect();
+            if fdats.len() >= 2 {
+                let victim = fdats[rng.below(fdats.len() as u64 - 1) as usize];
+                let mut cs: Vec<([u8; 4], Vec<u8>)> = chunks.iter().map(|c| (c.name, c.data.clone())).collect();
+                let d = &mut cs[victim].1;
+                if d.len() > 8 {
+                    let k = rng.range(6, d.len() as u64 - 1) as usize;
+                    d[k] ^= 0x5A;
+                }
+                input = crate::front::rebuild(&cs);
+                class.push_str(" frame-damaged");
+                st.count("apng_cases_with_damaged_frame");
+            }
+        }
+    }
+    st.count("apng_cases");
+    let mut opts = gen_opts(rng, Profile::Lossless, false);
+    opts.idat_recoding = true;
+    opts.strip = HStrip::None;
+    opts.force = rng.bool();
+    Case { img, class, enc: EncOpts::default(), input, opts }
+}
+
 pub fn oracle(ctx: &mut Ctx) {
     let mut rng = Rng::new(ctx.seed ^ 0xDE7);
     let mut st = Stats::default();
     for _ in 0..ctx.n {
         let case = if rng.chance(1, 4) {
             tie_case(&mut rng)
+        } else if rng.chance(1, 6) {
+            apng_case(&mut rng, &mut st)
         } else {
             gen_case(&mut rng, Profile::Any, ctx.tier_thorough, 17)
         };
